@@ -47,7 +47,7 @@ func zzKeyN(g *zzGroup, name string) *PrivateKey {
 //
 //verif:property C13
 //verif:expect-reach end
-//verif:bound abstract prime-order group of order 257 in place of the curve with coordinates of 4/4, 32/4 and 4/32 significant bytes, long-term and ephemeral scalars from {1,2,3,100,254,255} (quick) / {1,2,3,4,100,128,253,254,255} (thorough), identities of 2 symbolic bytes, klen 16; Z values, KDF and SM3 arbitrary functions of their inputs; on native replay random real keys are drawn until a shared point with a short coordinate is found and the result is compared with a direct computation of the standard's formulas
+//verif:bound abstract prime-order group of order 257 in place of the curve with coordinates of 4/4, 32/4 and 4/32 significant bytes, long-term and ephemeral scalars from {1,2,3,100,254,255} (quick) / {1,2,3,4,100,128,253,254,255} (thorough), identities of 2 symbolic bytes, klen 16; Z values, KDF and SM3 arbitrary functions of their inputs; on native replay 1500 random real key sets are each compared with a direct computation of the standard's formulas (so that leading zero bytes occur in every padded coordinate)
 //verif:outside the real curve arithmetic (C03), SM3 (C04); equality of the two sides' shared point (modular arithmetic, not decided symbolically)
 //verif:stub-symbolic github.com/tjfoc/gmsm/sm2.kdf zzStubKdf13
 //verif:stub-symbolic github.com/tjfoc/gmsm/sm3.Sm3Sum zzStubSm3Sum13
@@ -138,7 +138,7 @@ func zzH_c13_agree() {
 // leading zero byte (about 1 in 128 draws); the library's outputs are compared with a direct
 // evaluation of the standard's formulas.
 func zzNativeKx(ida, idb []byte) {
-	for try := 0; try < 4000; try++ {
+	for try := 0; try < 1500; try++ {
 		dA, _ := GenerateKey(rand.Reader)
 		dB, _ := GenerateKey(rand.Reader)
 		rA, _ := GenerateKey(rand.Reader)
@@ -166,23 +166,15 @@ func zzNativeKx(ida, idb []byte) {
 		inner := zzRealSm3(BytesCombine(p32(vx), za, zb, p32(rA.X), p32(rA.Y), p32(rB.X), p32(rB.Y)))
 		s1Ref := zzRealSm3(BytesCombine([]byte{2}, p32(vy), inner))
 		s2Ref := zzRealSm3(BytesCombine([]byte{3}, p32(vy), inner))
-		if try == 0 {
-			vAssert("kdf-input-ends-with-ZA-then-ZB", bytes.Equal(kA, kRef))
-			vAssert("inner-hash-starts-with-xV-ZA-ZB", bytes.Equal(s1A, s1Ref))
-			vAssert("confirmation-hashes-are-02-and-03-yV-inner", bytes.Equal(s1A, s1Ref) && bytes.Equal(s2A, s2Ref) && bytes.Equal(s1B, s1Ref) && bytes.Equal(s2B, s2Ref))
-		}
-		if len(vx.Bytes()) < 32 || len(vy.Bytes()) < 32 || try == 0 {
-			short := len(vx.Bytes()) < 32 || len(vy.Bytes()) < 32
-			if short {
-				vAssert("kdf-coordinates-are-32-bytes", bytes.Equal(kA, kRef))
-			}
-			vAssert("inner-hash-ephemeral-order-RA-then-RB/A", bytes.Equal(s1A, s1Ref) || short)
-			vAssert("inner-hash-ephemeral-order-RA-then-RB/B", bytes.Equal(s1B, s1Ref) || short)
-			vAssert("inner-hash-input-is-7x32-bytes", !short || bytes.Equal(s1A, s1Ref))
-			if short {
-				return
-			}
-		}
+		// every run is compared with the standard's formulas: 1500 fresh key sets make leading
+		// zero bytes occur in each coordinate that is padded somewhere (1 in 256 per coordinate)
+		vAssert("kdf-input-ends-with-ZA-then-ZB", bytes.Equal(kA, kRef))
+		vAssert("kdf-coordinates-are-32-bytes", bytes.Equal(kA, kRef))
+		vAssert("inner-hash-starts-with-xV-ZA-ZB", bytes.Equal(s1A, s1Ref))
+		vAssert("inner-hash-ephemeral-order-RA-then-RB/A", bytes.Equal(s1A, s1Ref))
+		vAssert("inner-hash-ephemeral-order-RA-then-RB/B", bytes.Equal(s1B, s1Ref))
+		vAssert("inner-hash-input-is-7x32-bytes", bytes.Equal(s1A, s1Ref) && bytes.Equal(s1B, s1Ref))
+		vAssert("confirmation-hashes-are-02-and-03-yV-inner", bytes.Equal(s2A, s2Ref) && bytes.Equal(s2B, s2Ref))
 	}
 }
 
